@@ -289,3 +289,10 @@ package models
 //@   ensures (result1 == nil) == (i.parent == nil)
 //@   ensures result1 == nil ==> freshslice(result0) && forall(j, 0, len(result0), result0[j] != nil)
 //@   ensures targetLevel == 0 && result1 == nil ==> len(result0) == 1 && result0[0] == i
+
+// Traverse applies fn to the node and to every descendant: it writes nothing itself, so its
+// effect on the caller is whatever the function value passed for fn may write (opaque: the
+// recursion through a function value is outside the engine's subset).
+//@ func (*Item).Traverse
+//@   opaque
+//@   modifies effects(fn)
